@@ -1820,3 +1820,132 @@ V("C10-revert-fix-window-behind-buffer","C10",FH,"""			if offset+objectwire.NonP
 V("C10-window-check-off-by-a-prefix","C10",FH,"""			if offset+objectwire.NonPayloadFieldsBufferLength > len(buf) {""","""			if offset+objectwire.NonPayloadFieldsBufferLength-combinedDataOff > len(buf) {""",rule="C10.R5")
 V("C10-window-always-rebased","C10",FH,"""			if offset+objectwire.NonPayloadFieldsBufferLength > len(buf) {""","""			if offset > 0 {""",expect="silent")
 V("C10-decoder-reads-callers-buffer","C10",FH,"bytes.NewReader(slices.Clone(initial))","bytes.NewReader(initial)",rule="C10.R4",more=[{"file":FH,"old":'	"slices"\n',"new":""}])
+
+# ---- rules added after the third seeding round, batch D
+TK="internal/crypto/tokens.go"; PE="pkg/innerring/processors/netmap/process_epoch.go"; IRG="pkg/innerring/innerring.go"; SHH="pkg/local_object_storage/shard/head.go"; WCM="pkg/local_object_storage/writecache/mode.go"; NNM="cmd/neofs-node/netmap.go"; ERS="pkg/local_object_storage/engine/restore.go"
+V("C37-origin-chain-not-authenticated","C37",TK,"""	if origin := token.Origin(); origin != nil {
+		if err := AuthenticateTokenV2(origin, fsChain); err != nil {
+			return fmt.Errorf("origin token: %w", err)
+		}
+	}
+
+	issuer := token.Issuer()""","""	if origin := token.Origin(); origin != nil && fsChain != nil {
+		if err := AuthenticateTokenV2(origin, fsChain); err != nil {
+			return fmt.Errorf("origin token: %w", err)
+		}
+	}
+
+	issuer := token.Issuer()""",rule="C37.R5")
+V("C38-epoch-recorded-after-netmap-read","C38",PE,"""	np.epochState.SetEpochCounter(epoch)
+
+	h, err := np.netmapClient.Morph().TxHeight(ev.TxHash())""","""	h, err := np.netmapClient.Morph().TxHeight(ev.TxHash())""",rule="C38.R5",more=[{"file":PE,"old":"	var oldMap = np.curMap.Swap(networkMap).(*netmap.NetMap)\n","new":"	var oldMap = np.curMap.Swap(networkMap).(*netmap.NetMap)\n	np.epochState.SetEpochCounter(epoch)\n"}])
+V("C38-epoch-recorded-first","C38",PE,"""	epochDuration, err := np.netmapClient.EpochDuration()
+	if err != nil {
+		l.Warn("can't get epoch duration",
+			zap.Error(err))
+	} else {
+		np.epochState.SetEpochDuration(epochDuration)
+	}
+
+	np.epochState.SetEpochCounter(epoch)
+""","""	np.epochState.SetEpochCounter(epoch)
+
+	epochDuration, err := np.netmapClient.EpochDuration()
+	if err != nil {
+		l.Warn("can't get epoch duration",
+			zap.Error(err))
+	} else {
+		np.epochState.SetEpochDuration(epochDuration)
+	}
+""",expect="silent")
+V("C40-tick-behind-a-once-per-epoch-flag","C40",IRG,"""			{
+				Tick:     basicIncomeTick,""","""			{
+				Tick: func() {
+					if !server.basicIncomeGate.CompareAndSwap(false, true) {
+						return
+					}
+					basicIncomeTick()
+				},""",rule="C40.R7",more=[{"file":"pkg/innerring/innerring.go","old":"func initTimers(server *Server, cfg *config.Config, paymentProcessor *settlement.Processor) {","new":"func initTimers(server *Server, cfg *config.Config, paymentProcessor *settlement.Processor) {\n	server.basicIncomeGate = new(atomic.Bool)"},{"file":"pkg/innerring/innerring.go","old":"		epochTimers     *timers.EpochTimers\n","new":"		epochTimers     *timers.EpochTimers\n		basicIncomeGate *atomic.Bool\n"}])
+V("C40-tick-through-a-logging-closure","C40",IRG,"""			{
+				Tick:     basicIncomeTick,""","""			{
+				Tick: func() {
+					server.log.Debug("basic income tick")
+					basicIncomeTick()
+				},""",expect="silent")
+V("C41-parent-parser-sees-header-limit-only","C41",SHH,"""	idf, sigf, hdrf, err := iobject.GetParentNonPayloadFieldBounds(b)""","""	idf, sigf, hdrf, err := iobject.GetParentNonPayloadFieldBounds(b[:min(len(b), object.MaxHeaderLen)])""",rule="C41.R6")
+V("C41-parent-parser-full-slice","C41",SHH,"""	idf, sigf, hdrf, err := iobject.GetParentNonPayloadFieldBounds(b)""","""	idf, sigf, hdrf, err := iobject.GetParentNonPayloadFieldBounds(b[:len(b)])""",expect="silent")
+V("C43-cache-records-mode-before-flush","C43",WCM,"""	if m.NoMetabase() && !c.mode.NoMetabase() {
+		err := c.flush(true)
+		if err != nil {
+			return err
+		}
+	}
+
+	if m.NoMetabase() {
+		c.mode = m
+		return nil
+	}
+""","""	if m.NoMetabase() {
+		flushNeeded := !c.mode.NoMetabase()
+		c.mode = m
+		if flushNeeded {
+			return c.flush(true)
+		}
+		return nil
+	}
+""",rule="C43.R7")
+V("C43-cache-flush-condition-in-variable","C43",WCM,"""	if m.NoMetabase() && !c.mode.NoMetabase() {
+		err := c.flush(true)
+		if err != nil {
+			return err
+		}
+	}
+""","""	flushNeeded := m.NoMetabase() && !c.mode.NoMetabase()
+	if flushNeeded {
+		if err := c.flush(true); err != nil {
+			return err
+		}
+	}
+""",expect="silent")
+V("C45-maintenance-rolled-back-on-failed-update","C45",NNM,"""	case control.NetmapStatus_MAINTENANCE:
+		return c.setMaintenanceStatus()""","""	case control.NetmapStatus_MAINTENANCE:
+		err := c.setMaintenanceStatus()
+		if err != nil {
+			c.stopMaintenance()
+		}
+		return err""",rule="C45.R3")
+V("C46-counting-reader-drops-tail","C46",ERS,"""	_, _, err := sh.Restore(r, ignoreErrors)
+	return err
+}""","""	_, _, err := sh.Restore(&countingReader{r: r}, ignoreErrors)
+	return err
+}
+
+type countingReader struct {
+	r io.Reader
+	n uint64
+}
+
+func (x *countingReader) Read(p []byte) (int, error) {
+	n, err := x.r.Read(p)
+	if err != nil {
+		return 0, err
+	}
+	x.n += uint64(n)
+	return n, nil
+}""",rule="C46.R5")
+V("C46-counting-reader-keeps-count","C46",ERS,"""	_, _, err := sh.Restore(r, ignoreErrors)
+	return err
+}""","""	_, _, err := sh.Restore(&countingReader{r: r}, ignoreErrors)
+	return err
+}
+
+type countingReader struct {
+	r io.Reader
+	n uint64
+}
+
+func (x *countingReader) Read(p []byte) (int, error) {
+	n, err := x.r.Read(p)
+	x.n += uint64(n)
+	return n, err
+}""",expect="silent")
